@@ -4718,7 +4718,7 @@ class Pack:
                 allow_missing=allow_missing,
                 resolve_ext_ref=self.resolve_ext_ref,
             )
-            if uo.id in shas
+            if uo.get_id(self.object_format) in shas
         )
 
     def iter_unpacked_subset(
